@@ -840,6 +840,7 @@ func runTask(f lib.Flags, res *lib.Result, task chainTask, only *replay) {
 			var cases []tamperCase
 			cases = append(cases, singleFieldCases(g, pos)...)
 			cases = append(cases, compoundCases(g, pos)...)
+			cases = append(cases, compensatingCases(g, pos)...) // round 6
 			cases = append(cases, rehashCases(g, pos)...)
 			cases = append(cases, addedEntryCases(g, pos)...)
 			// valid blocks at the wrong position
